@@ -488,9 +488,9 @@ fn enumerate(args: &Args) -> Vec<SpCase> {
             }
         }
         // drifting distributions: a long constant phase followed by a uniform one (and the reverse)
-        for &n in &[3usize * 65536, 65536 + 4096, 1 << 16] {
+        for &n in &[3usize * 65536, 3 * 65536 + 3, 200_000, 65536 + 4096, 1 << 16, 40_000] {
             for sigma in [16u32, 201] {
-                for pat in [Pat::DenseThenSparse, Pat::ConstThenPeriodic] {
+                for pat in [Pat::DenseThenSparse, Pat::ConstThenPeriodic, Pat::ConstPeriodicOne] {
                     for &al in &aliases {
                         v.push(SpCase::Tree { alias: al.into(), elem: "u8".into(), gen: Gen::Boundary { n, pat, sigma }, vmap: "hid".into() });
                     }
